@@ -46,7 +46,7 @@ def run(tier, seed):
             return rep.finish()
         rng = vlib.Rng(seed).fork("c18")
         cases = []
-        n = 260 if tier == "quick" else 12000
+        n = 260 if tier == "quick" else 4000
         for tc in T.gen_random(rng, n, 150 if tier == "quick" else 1500, dims=(1, 2, 3), Hmax={1: 7, 2: 5, 3: 5}):
             stop = rng.choice([2, 2, 0, 1, 3])
             masks = rng.choice(SPLITS)
@@ -115,7 +115,7 @@ def run(tier, seed):
                 rep.violation(dict(kind="build", clause=hname, has_input=True), "harness %s does not compile: %s" % (hname, serr[-400:]), dict(stderr=serr))
                 continue
             rcases, mcases = [], []
-            nrt = int((40 if tier == "quick" else 1500) * share)
+            nrt = int((40 if tier == "quick" else 300) * share)
             for tc in T.gen_random(rng, nrt, 120 if tier == "quick" else 800, dims=(1, 2, 3), Hmax={1: 7, 2: 5, 3: 5}):
                 stop = rng.choice([2, 2, 0, 1])
                 for pol, Tn, ss in [(rng.choice([1, 2, 4, 5]), rng.choice([2, 3, 8, 16]), 0), (3, rng.choice([1, 2, 3, 8, 16]), rng.below(1 << 30))]:
